@@ -5,17 +5,30 @@ From Gen Require Import GenNames.
 Import ListNotations.
 
 Definition colon : ascii := ":"%char.
-(** argument encodings: N | I:<z> | S:<hex> | B:0/1 | F:r/l *)
+(** argument encodings: N | I:<z> | S:<hex> | B:0/1 | F:r/l | D:<hex>,<hex>,.. (dict keys) | L:<n> (list of n items) *)
 Definition dec_arg (s : str) : pyval :=
   match split_c colon s with
   | [k; a] => if str_eqb k (s2l "I") then VInt (z_of_str a)
               else if str_eqb k (s2l "S") then VStr (unhex a)
               else if str_eqb k (s2l "B") then VBool (str_eqb a (s2l "1"))
               else if str_eqb k (s2l "F") then VFn (if str_eqb a (s2l "l") then F_ljust else F_rjust)
+              else if str_eqb k (s2l "D") then VDict (map (fun h => (VStr (unhex h), VNone)) (filter (fun h => negb (str_eqb h [])) (split_c ","%char a)))
+              else if str_eqb k (s2l "L") then VList (repeat VNone (nat_of_str a))
               else VNone
   | _ => VNone
   end.
 Definition is (k : str) (n : string) : bool := str_eqb k (s2l n).
+Definition dict_size (v : pyval) : nat := match v with VDict d => length d | _ => 0 end.
+(** the per-convention tables read from set_secondary_variables *)
+Definition tables (conv : pyval) : res pyval :=
+  match conv with
+  | VInt c => let i := Z.to_nat c in
+      match nth_error gen_colname_length_tbl i, nth_error gen_layername_length_tbl i, nth_error gen_atmosphere_column_name_tbl i with
+      | Some a, Some b, Some n => Ok (VTuple [VInt a; VInt b; VStr (s2l n)])
+      | _, _, _ => Raise IndexError
+      end
+  | _ => Raise TypeError
+  end.
 Definition run_case (line : str) : str :=
   match fields line with
   | k :: args =>
@@ -23,7 +36,8 @@ Definition run_case (line : str) : str :=
       show_res
       match a with
       | [x] => if is k "fix" then gen_fix_blockname x else if is k "unfix" then gen_unfix_blockname x
-               else if is k "valid" then gen_valid_blockname x else if is k "uniq" then gen_uniqstring x else Raise PlainException
+               else if is k "valid" then gen_valid_blockname x else if is k "uniq" then gen_uniqstring x
+               else if is k "tbl" then tables x else Raise PlainException
       | [x; y] => if is k "colname" then gen_column_name x y else if is k "layname" then gen_layer_name x y
                   else if is k "pad" then gen_padstring x y else Raise PlainException
       | [i; st; chars; sp; len] => if is k "i2c" then gen_int_to_chars (fuel_of i) i st chars sp len else Raise PlainException
@@ -31,6 +45,11 @@ Definition run_case (line : str) : str :=
           if is k "colnum" then gen_column_name_from_number conv clen num jf chars sp
           else if is k "nodenum" then gen_node_name_from_number conv clen num jf chars sp
           else if is k "laynum" then gen_layer_name_from_number conv clen num jf chars sp
+          (* new_dict_key d istart justfn length chars spaces, with the |d| + 2 units of fuel of theorem new_dict_key_unused *)
+          else if is k "ndk" then gen_new_dict_key (dict_size conv + 2) conv clen num jf chars sp
+          (* add_layers (name slice) convention layername_length thicknesses justify chars spaces, with the 3 units of fuel
+             of theorem add_layers_layer_names *)
+          else if is k "addlay" then gen_add_layers 3 conv clen num jf chars sp
           else Raise PlainException
       | [conv; lay; col] => if is k "blkname" then gen_block_name conv lay col (VDict []) else Raise PlainException
       | _ => Raise PlainException
